@@ -1,4 +1,5 @@
 import WfProofs.CliConfig
+import WfModel.GenCliConfigSql
 import WfProofs.CliConfigHistory
 import WfProofs.CliConfigHeld
 /-!
@@ -29,6 +30,87 @@ theorem C37_source_shape :
     Gen.CliConfig.profilesPrimaryKey = "name,api_url" ∧
     Gen.CliConfig.keylessProfileName = "default" ∧ Gen.CliConfig.createTokenSelects = true := by
   decide
+
+/-- The SQL the model `WfModel/CliConfig.lean` was read from: every statement `ConfigManager`
+executes, as (method, verb, table, WHERE conjuncts, SET columns / literal key / ORDER BY / LIMIT). -/
+def C37_expectedSql : List (String × String × String × String × String) := [
+  ("create_or_update_environment", "INSERT OR REPLACE", "environments", "", ""),
+  ("create_profile", "INSERT", "profiles", "", ""),
+  ("delete_environment", "DELETE", "environments", "api_url", ""),
+  ("delete_environment", "DELETE", "profiles", "api_url", ""),
+  ("delete_environment", "DELETE", "settings", "key='current_profile'", ""),
+  ("delete_environment", "INSERT OR REPLACE", "settings", "", "values='current_environment_api_url'"),
+  ("delete_environment", "SELECT", "environments", "api_url", ""),
+  ("delete_environment", "SELECT", "settings", "key='current_environment_api_url'", ""),
+  ("delete_profile", "DELETE", "profiles", "name&api_url", ""),
+  ("get_current_environment", "SELECT", "environments", "api_url", ""),
+  ("get_current_environment", "SELECT", "settings", "key='current_environment_api_url'", ""),
+  ("get_environment", "SELECT", "environments", "api_url", ""),
+  ("get_profile", "SELECT", "profiles", "name&api_url", ""),
+  ("get_profile_by_api_key", "SELECT", "profiles", "api_url&api_key", "limit=1"),
+  ("get_profile_by_device_user_id", "SELECT", "profiles", "api_url&JSON_EXTRACT(device_oidc,'$.user_id')", "limit=1"),
+  ("get_profile_by_id", "SELECT", "profiles", "id", ""),
+  ("get_settings_current_profile_name", "SELECT", "settings", "key='current_profile'", ""),
+  ("list_environments", "SELECT", "environments", "", "order=api_url"),
+  ("list_profiles", "SELECT", "profiles", "api_url", "order=name"),
+  ("set_project", "UPDATE", "profiles", "name&api_url", "set=project_id"),
+  ("set_settings_current_environment", "INSERT OR REPLACE", "settings", "", "values='current_environment_api_url'"),
+  ("set_settings_current_profile", "DELETE", "settings", "key='current_profile'", ""),
+  ("set_settings_current_profile", "INSERT OR REPLACE", "settings", "", "values='current_profile'"),
+  ("update_profile", "UPDATE", "profiles", "id", "set=name,api_url,project_id,api_key,api_key_id,device_oidc")]
+
+/-- The statements `ConfigManager` executes still have the shape the model was read from
+(regenerated from `/repo` on every run), and in particular: the only `DELETE` on `settings` names
+`current_profile` — the row `current_environment_api_url` is never removed, which is why the
+model's current environment is a `String` and not an `Option`; every write to `settings` names one
+of the two keys literally; and a `profiles` row is addressed by `(name, api_url)`, by `id`, or per
+environment — never by its name alone. -/
+theorem C37_source_shape_sql :
+    Gen.CliConfigSql.sqlStatements = C37_expectedSql ∧
+    (∀ st ∈ Gen.CliConfigSql.sqlStatements, st.2.2.1 = "settings" → st.2.1 = "DELETE" →
+      st.2.2.2.1 = "key='current_profile'") ∧
+    (∀ st ∈ Gen.CliConfigSql.sqlStatements, st.2.2.1 = "settings" → st.2.1 ≠ "SELECT" → st.2.1 ≠ "DELETE" →
+      st.2.1 = "INSERT OR REPLACE" ∧
+      (st.2.2.2.2 = "values='current_profile'" ∨ st.2.2.2.2 = "values='current_environment_api_url'")) ∧
+    (∀ st ∈ Gen.CliConfigSql.sqlStatements, st.2.2.1 = "profiles" → st.2.1 ≠ "INSERT" →
+      st.2.2.2.1 ∈ ["name&api_url", "id", "api_url", "api_url&api_key", "api_url&JSON_EXTRACT(device_oidc,'$.user_id')"]) ∧
+    Gen.CliConfigSql.profilesIdUnique = true := by
+  refine ⟨by decide, by decide, by decide, by decide, by decide⟩
+
+/-- How an `AuthService` is tied to an environment (regenerated): every call into a `ConfigManager`
+method that takes an environment passes the service's own binding `self.env.api_url` — never the
+current environment — which is what `stepHeld` models with the binding as a parameter; the calls
+without an environment argument are `set_settings_current_profile` (the selection is a bare name),
+`update_profile` and `get_profile_by_id` (by id, in any environment: `Op.refresh`).
+`EnvService.current_auth_service()` binds a fresh service to the current environment, read from
+the store on every call (the diagonal `step`); `ConfigManager.delete_profile` clears the selection
+when the deleted *name* equals it, whatever the environment (`stepHeld … (.deleteProfile _)`), and
+an empty selected name counts as no selection (`active`). -/
+theorem C37_source_shape_binding :
+    Gen.CliConfigSql.authServiceCalls = [
+      ("create_or_update_profile_from_oidc", "create_profile", "self.env.api_url"),
+      ("create_or_update_profile_from_oidc", "get_profile_by_device_user_id", "self.env.api_url"),
+      ("create_or_update_profile_from_oidc", "set_settings_current_profile", ""),
+      ("create_or_update_profile_from_oidc", "update_profile", ""),
+      ("create_profile_from_token", "create_profile", "self.env.api_url"),
+      ("create_profile_from_token", "set_settings_current_profile", ""),
+      ("delete_profile", "delete_profile", "self.env.api_url"),
+      ("get_current_profile", "get_current_profile", "self.env.api_url"),
+      ("get_profile", "get_profile", "self.env.api_url"),
+      ("get_profile_by_id", "get_profile_by_id", ""),
+      ("list_profiles", "list_profiles", "self.env.api_url"),
+      ("refresh_to_db", "update_profile", ""),
+      ("set_current_profile", "set_settings_current_profile", ""),
+      ("set_project", "set_project", "self.env.api_url"),
+      ("update_profile", "update_profile", "")] ∧
+    (∀ c ∈ Gen.CliConfigSql.authServiceCalls, c.2.1 ∈ Gen.CliConfigSql.envTakingMethods → c.2.2 = "self.env.api_url") ∧
+    (∀ c ∈ Gen.CliConfigSql.authServiceCalls, c.2.1 ∉ Gen.CliConfigSql.envTakingMethods →
+      c.2.1 ∈ ["set_settings_current_profile", "update_profile", "get_profile_by_id"]) ∧
+    Gen.CliConfigSql.currentAuthServiceBoundToCurrent = true ∧
+    Gen.CliConfigSql.currentEnvironmentReadThrough = true ∧
+    Gen.CliConfigSql.deleteProfileClearsOnName = true ∧
+    Gen.CliConfigSql.currentProfileNameTruthy = true := by
+  refine ⟨by decide, by decide, by decide, by decide, by decide, by decide, by decide⟩
 
 /-- **C37 (strong form).** After any sequence of configuration operations the current environment is
 a known environment or the built-in default, and the active profile
